@@ -10,7 +10,7 @@ R1 in Server.disconnect and Server._handle_disconnect the connected-test and
 import ast
 
 from ..model import AnalysisError
-from ..sym import U, run_function
+from ..sym import U, is_const, run_function
 from ..util import where, strip_await, walk_own
 from .c04 import gate_call, GATE_NAMES
 
@@ -159,6 +159,38 @@ def run(ctx):
     if not seen:
         ctx.bad('BaseManager.basic_disconnect', 'no-unmark', 'no path '
                 'both leaves the rooms and drops the mark', where(f))
+    ctx.rule('C20.R4', 'whoever marks the client runs the disconnect handler: '
+             'every path with a pre_disconnect mark triggers the '
+             '\'disconnect\' event exactly once after it, whatever it '
+             'observes later (the loser of the race relies on it)', floor=2)
+    for fname in ('disconnect', '_handle_disconnect'):
+        f = m.method('Server', fname)
+        construct = 'Server.' + fname
+        run = run_function(f, m)
+        n = 0
+        for p in run.paths:
+            if not p.normal:
+                continue
+            marks = [e for e in p.calls('pre_disconnect')
+                     if e.recv() == 'self.manager']
+            if not marks:
+                continue
+            n += 1
+            trig = [e for e in p.calls('_trigger_event')
+                    if e.idx > marks[0].idx and e.expr.args and
+                    is_const(e.expr.args[0], 'disconnect')]
+            later = [U(run.expand(c.atom)) for c in p.conds
+                     if c.at > marks[0].idx]
+            ctx.check(len(trig) == 1, construct, 'marked => the disconnect '
+                      'handler is triggered exactly once',
+                      key='marker-runs-handler', reason='after marking the '
+                      'client (line %d) the handler is triggered %d time(s) '
+                      'on the path where %s: the other terminating thread '
+                      'saw the mark and left the handler to this one'
+                      % (marks[0].lineno, len(trig), later or 'nothing else '
+                         'is tested'), where=where(f, marks[0].node))
+        if not n:
+            raise AnalysisError(construct + ': no marking path')
     ctx.rule('C11.R1', 'no trace remains: per-transport tables released on '
              'every path of the threaded _handle_eio_disconnect (shared '
              'rule)', floor=2)
